@@ -273,11 +273,13 @@ func (w *work) structural() {
 			w.both("tar-entry-swap", fmt.Sprintf("%d<->%d", i, j), i*100+j, join(es))
 		}
 		w.both("tar-entry-duplicate", fmt.Sprintf("%d", i), i, join(append(append([][]byte(nil), entries...), entries[i])))
-		if len(entries[i]) > 512 { // one byte of the entry's data changed (the manifest digest no longer matches), header intact
-			es := append([][]byte(nil), entries...)
-			es[i] = append([]byte(nil), entries[i]...)
-			es[i][512+(len(es[i])-512)/4] ^= 0x20
-			w.both("tar-entry-data-flip", fmt.Sprintf("%d", i), i, join(es))
+		if size := tarEntrySize(entries[i]); size > 0 { // one byte of the entry's data changed (its manifest digest no longer matches), header intact
+			for _, off := range []int64{0, size / 2, size - 1} {
+				es := append([][]byte(nil), entries...)
+				es[i] = append([]byte(nil), entries[i]...)
+				es[i][512+off] ^= 0x20
+				w.both("tar-entry-data-flip", fmt.Sprintf("%d@%d", i, off), i*100000+int(off), join(es))
+			}
 		}
 		w.both("tar-entry-delete", fmt.Sprintf("%d", i), i, join(append(append([][]byte(nil), entries[:i]...), entries[i+1:]...)))
 	}
@@ -340,6 +342,14 @@ func splitTar(b []byte) (entries [][]byte, tail []byte) {
 		off += n
 	}
 	return entries, b[off:]
+}
+
+func tarEntrySize(entry []byte) int64 {
+	size, err := strconv.ParseInt(strings.TrimRight(strings.TrimSpace(string(entry[124:136])), "\x00"), 8, 64)
+	if err != nil {
+		core.Fatalf("tarEntrySize: %v", err)
+	}
+	return size
 }
 
 // splitFrames cuts an encrypted archive into its header part and its frames.
